@@ -63,7 +63,8 @@ fn to_round<'a>(r: &'a RoundIn) -> Round<'a> {
 fn render_snapshot(st: &State) -> String {
     let mut ids: Vec<u64> = vec![0];
     ids.extend(st.flows().iter().map(|(_, id)| id.0));
-    render_state(st, &ids)
+    // the limits belong to the state: the empty state `clear()` installs must be the tracer's own empty state
+    format!("{} lim={}/{}", render_state(st, &ids), st.max_samples(), st.max_flows())
 }
 
 /// number of yield calls per round (dry run, sequential)
@@ -87,7 +88,7 @@ fn reference(rounds: &[RoundIn], ms: usize, mf: usize) -> Vec<Vec<String>> {
     let mut t = vec![vec![String::new(); n + 1]; n + 1];
     for b in 0..=n {
         for r in b..=n {
-            t[b][r] = apply(ms, mf, &rounds[b..r]).0;
+            t[b][r] = match apply(ms, mf, &rounds[b..r]) { (_, Some(st)) => render_snapshot(&st), (f, None) => f };
         }
     }
     COUNTING.store(false, Ordering::SeqCst);
@@ -197,6 +198,30 @@ fn controlled(ms: usize, mf: usize, rounds: &[RoundIn], pre: &[(usize, usize, bo
     }
     let fin = classify(&final_state);
     if fin.is_empty() { fails.push("C20:final_state_is_not_a_whole-rounds_state".to_string()); }
+    // a clear at rest: what it installs is the tracer's empty state (same sample / flow limits), and rounds applied
+    // afterwards respect the configured number of flows
+    tracer.clear();
+    let cleared = tracer.snapshot();
+    if render_snapshot(&cleared) != refs[0][0] {
+        fails.push(format!("C20:state_installed_by_clear_is_not_the_empty_state_of_this_tracer(limits_{}_{}_configured_{ms}_{mf})", cleared.max_samples(), cleared.max_flows()));
+    }
+    for r in rounds { tracer.verif_apply_round(&to_round(r)); }
+    let after = tracer.snapshot();
+    if after.flows().len() > mf {
+        fails.push(format!("C15:{}_flows_after_clear_with_max_flows_{mf}", after.flows().len()));
+    }
+    if render_snapshot(&after) != refs[0][n] {
+        fails.push("C20:rounds_applied_after_clear_do_not_give_the_whole-rounds_state".to_string());
+    }
+    // C15 after a clear: more distinct one-hop paths than max_flows must not create more than max_flows flows
+    tracer.clear();
+    let many = (0..mf + 3).map(|i| format!(
+        "1/tf/C:{}.7.5000.{}.1.{}.1000000000000:0a63{:02x}{:02x}:1000000500000:te0:-:-:-:-", 40000 + i, 40000 + i, i, i / 256, i % 256)).collect::<Vec<_>>().join(";");
+    for r in &crate::m_state::parse_rounds(&many) { tracer.verif_apply_round(&to_round(r)); }
+    let crowded = tracer.snapshot();
+    if crowded.flows().len() > mf {
+        fails.push(format!("C15:{}_flows_after_clear_with_max_flows_{mf}", crowded.flows().len()));
+    }
     let output = format!("blocked={} obs={} final={}", if blocked.is_empty() { "-".to_string() } else { blocked },
         if obs.is_empty() { "-".to_string() } else { obs.join(";") }, if fin.is_empty() { "torn".to_string() } else { fin.join("|") });
     let input = format!("c20 {ms} {mf} {} {} {}", counts.iter().map(usize::to_string).collect::<Vec<_>>().join(","), if pre_s.is_empty() { "-".to_string() } else { pre_s }, render_rounds(rounds));
